@@ -4,7 +4,9 @@
 //! Exhaustive small scope over the alphabet {a,b,A,B,0,1,' ','-',',','\n','\r'}, packed into arrays of rank 1..3,
 //! then a seeded random stream (strings up to 24 bytes, patterns cut out of the subject), then malformed calls,
 //! then the robustness streams of FRAMEWORK.md (`robust`): sizes, zero-length axes, long strings / large widths, argument-shape
-//! combinations in every argument position.  `exec` runs EVERY case on both receivers (`Array<String>` and `Result<Array<String>, _>`).
+//! combinations in every argument position, and part 2 (`robust2`): huge arrays, colliding shapes A–B–A, value fingerprints, refused-then-valid,
+//! exact lengths, aliasing, ranks 4..6.  `exec` runs EVERY case on both receivers (`Array<String>` and `Result<Array<String>, _>`), re-runs
+//! the previous case after every third one (A–B–A) and passes the receiver itself as second operand when both are spelled alike.
 use arrharness::*;
 
 /// Unequal-but-broadcastable argument shapes (rank >= 2 against `[1]`, `[2,3]` against `[3]`, `[2,1]` against `[1,3]`, …).
@@ -890,5 +892,5 @@ fn nontrivial(_op: &str, args: &[&str]) -> bool {
 
 fn main() {
     harness_main(Spec { prop: "C17", gen, exec, nontrivial, hang_secs: 5,
-        rule: "exhaustive over the alphabet {a,b,A,B,0,1,space,-,comma,LF,CR}: one-argument operations on every string of length <=4 (quick <=3); two-argument operations on every (subject<=3 (quick <=2), pattern<=2) pair, split/rsplit limits 0..4; padding widths 0..6; replace on every (subject<=4 (quick <=3), old<=2, new<=2, count) over {a,b,-}; all packed into equal-shape arrays of rank 1..3 plus [1]-shaped scalar-like arguments; + seeded random strings up to 24 bytes with patterns cut from the subject; + non-broadcastable shapes; + robustness streams: both receivers (Array<String>, Ok(array) and Err(..) through the Result impls) on EVERY case, compare with &str/String/enum spellings, every operation on big_shapes() (axes 7..17, up to 4900 elements) and zero_shapes() with same-shape/[1]/trailing/unit-axis partners, long strings 257..301 bytes with self-overlapping patterns and widths/counts 255..1000, every pair/triple of argument shapes needing two-sided stretches in every argument position. distinct = distinct case lines; non-trivial = subject array with >=2 distinct strings" });
+        rule: "exhaustive over the alphabet {a,b,A,B,0,1,space,-,comma,LF,CR}: one-argument operations on every string of length <=4 (quick <=3); two-argument operations on every (subject<=3 (quick <=2), pattern<=2) pair, split/rsplit limits 0..4; padding widths 0..6; replace on every (subject<=4 (quick <=3), old<=2, new<=2, count) over {a,b,-}; all packed into equal-shape arrays of rank 1..3 plus [1]-shaped scalar-like arguments; + seeded random strings up to 24 bytes with patterns cut from the subject; + non-broadcastable shapes; + robustness streams: both receivers (Array<String>, Ok(array) and Err(..) through the Result impls) on EVERY case, compare with &str/String/enum spellings, every operation on big_shapes() (axes 7..17, up to 4900 elements) and zero_shapes() with same-shape/[1]/trailing/unit-axis partners, long strings 257..301 bytes with self-overlapping patterns and widths/counts 255..1000, every pair/triple of argument shapes needing two-sided stretches in every argument position; part-2 streams: huge arrays of 16 385 ... 70 001 short strings ([130,127], [2,3,5000], [40,30,30] ...; thorough to 140 000) - all seven search operations against ONE pattern spelled [1] / [1,1] / [1,1,1] on every huge shape, a rotating share (thorough: all) of the other operations, array partners to 40 000, replace to 20 000 / 33 000; collision_shape_pairs A,B,A; anagram arrays and the same strings in five orders; refused-then-valid calls; A-B-A re-run of the previous case on every third case; every string length 1..130, 191, 255..257, 300 over seven alphabets ('Z' only, 'z' only, ...); every width 0..300; `a.op(&a)` with the very same object; ranks 4..6. distinct = distinct case lines; non-trivial = subject array with >=2 distinct strings" });
 }
